@@ -260,9 +260,25 @@ def imports_for(arm):
 
 
 POSITIONS = ["toplevel", "fun", "test", "closure", "hof", "alias"]
+LIB_FILE_NAMES = ["__time.gdn", "__random.gdn"]     # library file names no effectful arm lives in
 
 
-def program(arm, call, position, mode, alias_call=None):
+def prelude_hofs(repo):
+    """Higher-order methods written in Garden in the library files (src/__*.gdn) that take a
+    one-argument function: [(receiver base type, method name)], e.g. ("List", "map")."""
+    out, skipped = [], []
+    d = os.path.join(repo, "src")
+    for f in sorted(os.listdir(d)):
+        if not (f.startswith("__") and f.endswith(".gdn")):
+            continue
+        text = open(os.path.join(d, f), encoding="utf-8").read()
+        for m in re.finditer(r"^(?:public\s+)?method\s+(\w+)\s*(?:<[^>(]*>)?\s*\(\s*this\s*:\s*(\w+)[^)]*?"
+                             r"\w+\s*:\s*Fun<\(\s*[^,()]+\s*\)\s*,", text, re.M):
+            (out if m.group(2) in ("List", "Option") else skipped).append((m.group(2), m.group(1)))
+    return out, skipped
+
+
+def program(arm, call, position, mode, alias_call=None, hof_arg="1"):
     """Garden source placing `call` at `position`. BEFORE/AFTER markers bracket the call. In
     sandboxed-test mode everything runs from inside a test (only tests are evaluated)."""
     imp = imports_for(arm)
@@ -287,6 +303,16 @@ def program(arm, call, position, mode, alias_call=None):
     elif position == "alias":
         defs = ""
         body = 'let c24_alias = %s\nprintln("C24-BEFORE")\nlet r = %s\n%s\n' % (fun_ref(arm), alias_call, use)
+    elif position.startswith("prelude-hof:"):
+        # the built-in itself, passed BY NAME as a function value to a higher-order method that is
+        # written in Garden inside a library file: the built-in is then called from a library frame
+        recv_ty, meth = position.split(":", 1)[1].split(".")
+        defs = ""
+        recv = {"List": "[%s]", "Option": "Some(%s)"}[recv_ty] % hof_arg
+        body = 'println("C24-BEFORE")\nlet r = %s.%s(%s)\n%s\n' % (recv, meth, fun_ref(arm), use)
+    elif position == "user-hof":
+        defs = "fun c24_apply(f, x) {\n  f(x)\n}\n"
+        body = 'println("C24-BEFORE")\nlet r = c24_apply(%s, %s)\n%s\n' % (fun_ref(arm), hof_arg, use)
     else:
         raise ValueError(position)
     if mode == "sandboxed-test" or position == "test":
@@ -381,13 +407,11 @@ class Runner:
         make_fixture(d)
         return d
 
-    def run(self, mode, src, case_dir, keep=False):
-        prog = os.path.join(case_dir, "work", "prog.gdn")
+    def run(self, mode, src, case_dir, keep=False, fname="prog.gdn", override=None):
+        prog = os.path.join(case_dir, "work", fname)
         with open(prog, "w") as f:
             f.write(src)
-        argv = {"playground-run": ["playground-run", "prog.gdn"],
-                "sandboxed-test": ["sandboxed-test", "prog.gdn", "0"],
-                "run": ["run", "prog.gdn"]}[mode]
+        argv = argv_for(mode, fname, override)
         res = run_observed(common.GARDEN, argv, case_dir)
         if res["rc"] == -9999:      # loaded machine? once more before believing it
             shutil.rmtree(case_dir, ignore_errors=True)
@@ -401,15 +425,22 @@ class Runner:
         return res
 
 
-def replay_cmd(mode, src):
-    arg = {"playground-run": "playground-run prog.gdn", "sandboxed-test": "sandboxed-test prog.gdn 0",
-           "run": "run prog.gdn"}[mode]
-    return ("mkdir -p /tmp/c24 && cd /tmp/c24 && cat > prog.gdn <<'EOF'\n%sEOF\n"
+def argv_for(mode, fname="prog.gdn", override=None):
+    argv = {"playground-run": ["playground-run", fname],
+            "sandboxed-test": ["sandboxed-test", fname, "0"],
+            "run": ["run", fname]}[mode]
+    if override:
+        argv += ["--override-path", override]
+    return argv
+
+
+def replay_cmd(mode, src, fname="prog.gdn", override=None):
+    return ("mkdir -p /tmp/c24 && cd /tmp/c24 && cat > %s <<'EOF'\n%sEOF\n"
             "echo sentinel | timeout 10 garden %s   # paths in the program refer to the harness fixture; "
-            "use ./check C24 --replay <this file> to rebuild it" % (src, arg))
+            "use ./check C24 --replay <this file> to rebuild it" % (fname, src, " ".join(argv_for(mode, fname, override))))
 
 
-def judge_sandboxed(ctx, arm, mode, position, src, res, effectful, tag=""):
+def judge_sandboxed(ctx, arm, mode, position, src, res, effectful, tag="", fname="prog.gdn", override=None):
     """Direct oracle on one sandboxed run. Returns the classification."""
     cls = classify(mode, res, position)
     ev = effects_observed(res)
@@ -421,7 +452,8 @@ def judge_sandboxed(ctx, arm, mode, position, src, res, effectful, tag=""):
         if name not in obs["arms"]:
             obs["arms"].append(name)
     base = dict(arm=name, mode=mode, position=position, program=src, observed=cls,
-                stdout=res["out"][-600:], stderr=res["err"][-300:], rc=res["rc"], replay_cmd=replay_cmd(mode, src))
+                stdout=res["out"][-600:], stderr=res["err"][-300:], rc=res["rc"], fname=fname, override=override,
+                replay_cmd=replay_cmd(mode, src, fname, override))
     if cls == "timeout":
         # A run killed by the wall-clock limit (twice: 10 s, then 30 s) says nothing about C24: stdin
         # always holds data and is at EOF behind it, so a sandboxed stdin read cannot block; on a loaded
@@ -490,7 +522,9 @@ def _run(ctx, rng, t, arms, root):
     ctx.rule = (
         "for every arm of eval_built_in_call / eval_built_in_method_call (names, namespaces and parameter types "
         "from the regenerated tables): effectful arms in every position {toplevel, fun, test, closure, prelude "
-        "map, alias} x {playground-run, sandboxed-test} plus %d more runs per mode at random positions, each run "
+        "map with a lambda, alias} x {playground-run, sandboxed-test}, the built-in passed BY NAME to every library "
+        "higher-order method (List::map, List::filter, …) and to a user-defined one, the program saved as / presented "
+        "via --override-path as a library file name (__time.gdn, __random.gdn), plus %d more runs per mode at random positions, each run "
         "with its own argument tuple, plus wrong-arity / wrong-type calls; effect-free arms {toplevel, test} x 2 "
         "modes (+%d); sequences of 3 calls; unsandboxed positive controls. Arguments per declared type (paths: "
         "existing / missing, relative / absolute / with `..`, all inside the scratch tree; strings; lists; ints). "
@@ -526,6 +560,12 @@ def _run(ctx, rng, t, arms, root):
             ctx.disagree("sbx_call(unsandboxed)", a["name"], r0, "table effects=%r" % a["effects"])
 
     # ---- build all single-call jobs
+    hofs, hofs_skipped = prelude_hofs(common.REPO)
+    ctx.cov["library_hofs_used"] = ["%s.%s" % h for h in hofs]
+    ctx.cov["library_hofs_skipped"] = ["%s.%s" % h for h in hofs_skipped]
+    if not hofs:
+        ctx.broken.append({"kind": "harness", "what": "no higher-order method found in src/__*.gdn "
+                           "(List::map / List::filter expected)"})
     jobs = []
     for a in arms:
         effectful = bool(a["effects"])
@@ -538,6 +578,24 @@ def _run(ctx, rng, t, arms, root):
             for _ in range(n_eff_tuples if effectful else n_free_tuples):
                 jobs.append(dict(arm=a, mode=mode, position=rng.choice(positions), tuple=k, variant="typed"))
                 k += 1
+        if effectful and not a["isMethod"]:
+            # the built-in passed by name to every library HOF, and to a user HOF (control)
+            for mode in ("playground-run", "sandboxed-test"):
+                for (rt, mn) in hofs:
+                    jobs.append(dict(arm=a, mode=mode, position="prelude-hof:%s.%s" % (rt, mn), tuple=k,
+                                     variant="typed", tag="/prelude-hof"))
+                    k += 1
+                jobs.append(dict(arm=a, mode=mode, position="user-hof", tuple=k, variant="typed", tag="/user-hof"))
+                k += 1
+        if effectful:
+            # the program saved under / presented as a library file name
+            for i, mode in enumerate(("playground-run", "sandboxed-test")):
+                jobs.append(dict(arm=a, mode=mode, position=rng.choice(["toplevel", "fun", "closure"]), tuple=k,
+                                 variant="typed", tag="/library-file-name", fname=LIB_FILE_NAMES[i % 2]))
+                k += 1
+            jobs.append(dict(arm=a, mode="sandboxed-test", position=rng.choice(["toplevel", "fun"]), tuple=k,
+                             variant="typed", tag="/override-path", override=rng.choice(LIB_FILE_NAMES)))
+            k += 1
         if effectful:
             for variant in ("noargs", "extra", "wrongtype"):
                 for mode in ("playground-run", "sandboxed-test"):
@@ -560,10 +618,10 @@ def _run(ctx, rng, t, arms, root):
         call = call_expr(a, args, recv)
         alias_call = None if a["isMethod"] else call_expr(a, args, via_alias=True)
         j["dir"] = cd
-        j["src"] = program(a, call, j["position"], j["mode"], alias_call)
+        j["src"] = program(a, call, j["position"], j["mode"], alias_call, hof_arg=(args[0] if args else "1"))
 
     def do(j):
-        return R.run(j["mode"], j["src"], j["dir"])
+        return R.run(j["mode"], j["src"], j["dir"], fname=j.get("fname", "prog.gdn"), override=j.get("override"))
     results = common.pmap(do, jobs)
 
     # ---- judge
@@ -575,8 +633,9 @@ def _run(ctx, rng, t, arms, root):
         a = j["arm"]
         key = (a["isMethod"], a["name"])
         effectful = bool(a["effects"])
-        tag = "" if j["variant"] == "typed" else "-malformed-call"
-        cls = judge_sandboxed(ctx, a, j["mode"], j["position"], j["src"], res, effectful, tag)
+        tag = j.get("tag", "") if j["variant"] == "typed" else "-malformed-call"
+        cls = judge_sandboxed(ctx, a, j["mode"], j["position"], j["src"], res, effectful, tag,
+                              fname=j.get("fname", "prog.gdn"), override=j.get("override"))
         counts[cls] = counts.get(cls, 0) + 1
         nontrivial = cls not in ("parse", "other", "timeout")
         if cls in ("parse", "other") and len(unclassified) < 5:
@@ -788,7 +847,8 @@ def replay(ctx, path):
             # the recorded program mentions the fixture directory of the original run: re-root it
             cd = R.case_dir()
             src = re.sub(r"/[^\"' ]*?/scratch/sandbox/run-\d+/c\d+", cd, src)
-            res = R.run(mode, src, cd)
+            fname, override = inp.get("fname") or "prog.gdn", inp.get("override")
+            res = R.run(mode, src, cd, fname=fname, override=override)
             arm = by_name.get(inp.get("arm", ""))
             ctx.case(("replay", src), True)
             if arm is None:
@@ -797,8 +857,10 @@ def replay(ctx, path):
                     ctx.fail("C24/sequence/effect", "a sandboxed program had an effect: " + "; ".join(ev),
                              program=src, mode=mode, stdout=res["out"][-600:])
             else:
+                m = re.search(r"/not-forbidden(.*)$", it.get("key", ""))
                 judge_sandboxed(ctx, arm, mode, inp.get("position", "toplevel"), src, res, bool(arm["effects"]) or
-                                it.get("key", "").endswith("/effect"))
+                                "/effect" in it.get("key", "") or m is not None, tag=(m.group(1) if m else ""),
+                                fname=fname, override=override)
             ctx.log("replayed %s in %s: %s; effects observed: %s" % (
                 inp.get("arm"), mode, classify(mode, res, inp.get("position", "toplevel")), effects_observed(res)))
     finally:
